@@ -133,7 +133,8 @@ def execute_here(plan, keep_events=False):
     I, N, C, T = (plan['n_inputs'], plan['n_nodes'], plan['n_cores'],
                   plan['trials'])
     mode = plan['mode']
-    data_dir = sb.path('data')
+    # (a dot in a directory name is legal and common: sweep_eta0.5/)
+    data_dir = sb.path(plan.get('dir_name', 'data'))
     inputs = []
     ident_of_input = {}
     for i in range(I):
@@ -450,6 +451,8 @@ def gen_full_plan(seed):
             # every node of the job array runs the same command line, so the
             # flag is either on for all of them or for none
             'delete_existing': rng.random() < 0.35,
+            'dir_name': rng.choice(['data', 'data', 'sweep_eta0.5',
+                                    'run.v2/data']),
             'preempt': []}
     if rng.random() < 0.6:
         for _ in range(rng.choice([1, 1, 2])):
